@@ -19,7 +19,8 @@ RunTables(N, Vals) == UNION {{[i \in 1 .. Len(c) |-> [n |-> c[i], v |-> vs[i]]] 
 SttsTables(N) == RunTables(N, {1, 3})
                  \cup {[t EXCEPT ![Len(t)].v = 0] : t \in {x \in RunTables(N, {1, 3}) : x[Len(x)].n = 1}}
 CttsTables(N) == [ver : {0, 1}, tab : RunTables(N, {0, 2})] \cup [ver : {1}, tab : RunTables(N, {0, 2, -1})]
-SdiPatterns(C) == {[c \in 1 .. C |-> IF c > k THEN 2 ELSE 1] : k \in 1 .. C}   \* k = C: all 1
+\* sample description index per chunk: 1..1 2..2 1..1 (k2 = C: one change; k2 = k: all 1; otherwise the index RETURNS to its first value)
+SdiPatterns(C) == {[c \in 1 .. C |-> IF c > k /\ c <= k2 THEN 2 ELSE 1] : k \in 1 .. C, k2 \in 1 .. C}
 ChunkTables(N) == UNION {{[spc |-> c, sdi |-> p, merge |-> m, uniform |-> u, gap |-> g, co64 |-> w] :
                               p \in SdiPatterns(Len(c)), m \in BOOLEAN, u \in BOOLEAN, g \in {0, 2}, w \in BOOLEAN} : c \in Comp(N)}
 Sizes(N, uniform) == IF uniform THEN Rep(3, N) ELSE [i \in 1 .. N |-> i + 1]
